@@ -71,6 +71,19 @@ Example C20_sortMap_ex :
   /\ sortMap_over [(3, [1]); (1, [2])] = SMOk [2; 1; 3] /\ sortMap cs = SMOk [2; 1; 3].
 Proof. vm_compute. repeat split; reflexivity. Qed.
 
+(* DetachCycles = sortMap + sort.Slice by the index map (M-SORT), with [deps] in any order *)
+Theorem C20_map_order_irrelevant_DetachCycles : forall (cs : list change) (m : deps_t),
+  Permutation m (dependencies cs) -> DetachCycles_over m cs = DetachCycles cs.
+Proof. exact DetachCycles_over_perm. Qed.
+Print Assumptions C20_map_order_irrelevant_DetachCycles.
+Example C20_DetachCycles_ex :
+  let t n := mkT n n in
+  let a := AddTable (t 1) [mkFK 0 (t 1) (t 2)] in
+  let b := AddTable (t 3) [mkFK 1 (t 3) (t 1)] in
+  let c := AddTable (t 2) [] in
+  DetachCycles_over [(3, [1]); (1, [2])] [a; b; c] = DCOk [c; a; b].
+Proof. vm_compute. reflexivity. Qed.
+
 Theorem C20_map_order_irrelevant_CheckChangesScope : forall names names' : list bytes,
   Permutation names names' -> NoDup names ->
   CheckChangesScope_names names = CheckChangesScope_names names'.
